@@ -2,6 +2,7 @@ package lib
 
 import (
 	"fmt"
+	"regexp"
 	"math/big"
 	"math/rand"
 	"reflect"
@@ -28,6 +29,7 @@ type GenOpts struct {
 	ZeroLenBinary   bool // representation class: zero-length (non-nil) binary values
 	EmptyLists      bool // representation class: non-nil keyed/ordered lists without entries
 	PreciseDecimals bool // decimal64 values whose float64 needs 16-17 significant digits
+	EmptyKeyStrings bool // the empty string as a list key value
 }
 
 // DefaultGen is the baseline option set.
@@ -436,7 +438,7 @@ func (g *Gen) valueOfType(parent reflect.Value, f *FieldInfo, yt *yang.YangType,
 		if base.Kind != yang.Ystring {
 			base = &yang.YangType{Kind: yang.Ystring}
 		}
-		s, ok := pickString(g.Rng, base, g.Opt.Hostile, !isKey)
+		s, ok := pickString(g.Rng, base, g.Opt.Hostile, !isKey || g.Opt.EmptyKeyStrings)
 		if !ok {
 			g.Skipped["string-unsatisfiable:"+f.Entry.Name]++
 			return reflect.Value{}, false
@@ -908,6 +910,8 @@ func MapKeyFor(kt reflect.Type, ent reflect.Value, kfs []*FieldInfo) (reflect.Va
 	return k, true
 }
 
+var currentPredRe = regexp.MustCompile(`\[(?:[\w.-]+:)?([\w.-]+)\s*=\s*current\(\)/\.\./(?:[\w.-]+:)?([\w.-]+)\]`)
+
 // fillDeferred handles leafref leaves and leafref-keyed lists once the rest of
 // the tree exists.
 func (g *Gen) fillDeferred(it deferredItem) {
@@ -916,6 +920,22 @@ func (g *Gen) fillDeferred(it deferredItem) {
 	case KLeaf:
 		lp := extend(it.path, it.f.Path)
 		cands := EvalLeafref(obs, lp, it.f.LeafrefPath)
+		if len(cands) == 0 {
+			// [key = current()/../sibling]: point the sibling at an existing entry
+			if m := currentPredRe.FindStringSubmatchIndex(it.f.LeafrefPath); m != nil {
+				keyName, sib := it.f.LeafrefPath[m[2]:m[3]], it.f.LeafrefPath[m[4]:m[5]]
+				keyVals := EvalLeafref(obs, lp, it.f.LeafrefPath[:m[0]]+"/"+keyName)
+				for _, sf := range g.C.Info(it.parent.Type()).Fields {
+					if sf.Kind == KLeaf && len(sf.Path) == 1 && sf.Path[0] == sib && len(keyVals) > 0 {
+						sv := it.parent.Field(sf.Idx)
+						if sv.Kind() != reflect.Interface && ParseCanonInto(sv, keyVals[g.Rng.Intn(len(keyVals))]) {
+							obs = g.C.Observe(g.root.Interface().(ygot.GoStruct))
+							cands = EvalLeafref(obs, lp, it.f.LeafrefPath)
+						}
+					}
+				}
+			}
+		}
 		if len(cands) == 0 {
 			g.Skipped["leafref-no-target"]++
 			return
